@@ -68,6 +68,9 @@ def generate(rng, tier):
         if batch:
             n += 1
             yield exh_scn('exh%d' % n, schema, flags, batch)
+    for w in WORDS:
+        n += 1
+        yield word_scn('word%d' % n, w)
     # 2. random schemas and texts
     nrand = 250 if tier == 'quick' else 5000
     for _ in range(nrand):
@@ -92,6 +95,22 @@ def generate(rng, tier):
             meta['getschema'] = schema
             lines += gen.getter_sweep(schema, maxidx=2)
         yield Scn('rand%d' % n, lines, meta)
+
+
+WORDS = [b'word', b'a/b', b'http://host/x', b'a//b', b'dir//', b'/usr/local/', b'nfs://box/vol//', b'x.y-z', b'1e-5', b'a_b', b'~/x', b'%s', b'[x]', b'a|b',
+         b'a:b', b'a;b', b'x-y', b'-5x']
+
+
+def word_scn(sid, w):
+    """an unquoted word denotes itself (checked against the literal, not against the model's scanner): as a value, a
+    list element, a section title and a free-form value"""
+    sch = [Opt('str', b's', 0, None), Opt('strl', b'sl', 0, None), Opt('sec', b't', F['MULTI'] | F['TITLE'], None, [Opt('str', b'v', 0, None)]),
+           Opt('sec', b'kv', F['KEYSTRVAL'], None, [])]
+    lines = gen.prelude(sch, 0) + ['parse_buf 0 ' + hx(b's = ' + w + b'\nsl = {' + w + b', x, ' + w + b'}\nt ' + w + b' { v = ' + w + b' }\nkv { k = ' + w + b' }\n')]
+    k = len(lines)
+    lines += ['getv0 0 str ' + hx(b's'), 'getv 0 str %s 0' % hx(b'sl'), 'getv 0 str %s 2' % hx(b'sl'), 'title 0 ' + hx(b't'), 'getv0 0 str ' + hx(b't|v'),
+              'getv0 0 str ' + hx(b'kv|k')]
+    return Scn(sid, lines, {'class': 'words', 'checks': [], 'word': w, 'k': k})
 
 
 def exh_scn(sid, schema, flags, texts):
@@ -146,6 +165,15 @@ def oracle(scn, il, ml):
             elif obs(ib[di])[5:] != obs('dump ' + want)[5:]:
                 out.append(('values:' + shape(text), '%s: after %s the tree is\n  %s\nthe meaning is\n  %s' % (
                     scn.id, show(text), obs(ib[di])[5:][:1500], want[:1500])))
+    if scn.meta.get('class') == 'words':
+        k, w = scn.meta['k'], scn.meta['word']
+        if k + 6 > len(ib) or 'rc=0 ' not in ib[k - 1]:
+            return [('word-rejected', '%s: text with the unquoted word %r: %s' % (scn.id, w, ib[k - 1][:160] if k - 1 < len(ib) else '-'))]
+        for j in range(6):
+            want = ('t=' if j == 3 else 'v=') + hx(w) + ' '
+            if want not in ib[k + j] + ' ':
+                return [('word-value', '%s: the unquoted word %r read back through `%s` is %s' % (scn.id, w, scn.lines[k + j][:40], ib[k + j][:80]))]
+        return []
     gd = scn.meta.get('getdump')
     if not out and gd is not None and gd < len(ib) and ib[gd].startswith('dump ('):
         out += gen.check_getters(scn, ib, gen.dump_tree(ib[gd]), scn.meta['getschema'])
